@@ -68,6 +68,9 @@ func (f *Frame) callCommon(c *ssa.CallCommon, in ssa.Instruction, st *PState, rt
 			bindings = v.Clos.Bindings
 		}
 	}
+	if callee != nil && ex.aim != nil {
+		f.aimObligation(callee, args, in, st)
+	}
 	if callee == nil {
 		if tc := ex.P.ContractFor(ex.top); tc != nil && tc.DynPure {
 			ex.vc.trusted["dynamic calls in "+shortFn(ex.top)+" are assumed to modify nothing (dyncalls pure)"] = true
@@ -138,7 +141,9 @@ func (f *Frame) inline(fn *ssa.Function, args, bindings []Val, in ssa.Instructio
 			pt := args[k].GT.Underlying().(*types.Pointer)
 			r := ex.alloc(st, "cpin")
 			hn, hs := ex.heapOfType(pt.Elem())
-			ex.setH(st, hn, hs, sto(ex.H(st, hn, hs), r, ex.loadLV(st, args[k].LV)))
+			cv := ex.loadLV(st, args[k].LV)
+			ex.setH(st, hn, hs, sto(ex.H(st, hn, hs), r, cv))
+			ex.vc.AssumeIf(st.reach, eq(sel(ex.H(st, hn, hs), r), cv)) // consequence of the store, stated for the e-graph
 			copies = append(copies, cpy{args[k].LV, r, pt.Elem()})
 			args[k] = Val{T: r, S: SInt, GT: args[k].GT}
 		} else if args[k].LV != nil {
@@ -194,8 +199,7 @@ func (f *Frame) inline(fn *ssa.Function, args, bindings []Val, in ssa.Instructio
 		}
 	}
 	for _, c := range copies {
-		hn, hs := ex.heapOfType(c.t)
-		ex.storeLV(st, c.lv, sel(ex.H(st, hn, hs), c.ref))
+		ex.copyOut(st, c.lv, c.ref, c.t)
 	}
 	return out
 }
@@ -304,7 +308,9 @@ func (f *Frame) applyContract(ct *Contract, fn *ssa.Function, sig *types.Signatu
 			pt := args[k].GT.Underlying().(*types.Pointer)
 			r := ex.alloc(st, "cpin")
 			hn, hs := ex.heapOfType(pt.Elem())
-			ex.setH(st, hn, hs, sto(ex.H(st, hn, hs), r, ex.loadLV(st, args[k].LV)))
+			cv := ex.loadLV(st, args[k].LV)
+			ex.setH(st, hn, hs, sto(ex.H(st, hn, hs), r, cv))
+			ex.vc.AssumeIf(st.reach, eq(sel(ex.H(st, hn, hs), r), cv)) // consequence of the store, stated for the e-graph
 			copies = append(copies, cpy{args[k].LV, r, pt.Elem()})
 			args[k] = Val{T: r, S: SInt, GT: args[k].GT}
 		} else if args[k].LV != nil {
@@ -335,8 +341,7 @@ func (f *Frame) applyContract(ct *Contract, fn *ssa.Function, sig *types.Signatu
 	if ct.Iterator {
 		if v, ok := f.iterateCall(ct, sig, args, vars, pre, in, st, rt); ok {
 			for _, c := range copies {
-				hn, hs := ex.heapOfType(c.t)
-				ex.storeLV(st, c.lv, sel(ex.H(st, hn, hs), c.ref))
+				ex.copyOut(st, c.lv, c.ref, c.t)
 			}
 			return v
 		}
@@ -399,8 +404,7 @@ func (f *Frame) applyContract(ct *Contract, fn *ssa.Function, sig *types.Signatu
 		ex.vc.trusted["granted at call sites of "+shortPkg(ct.Pkg)+"."+ct.Target+" (history token / call-graph frame, see forbids): "+en.Src] = true
 	}
 	for _, c := range copies {
-		hn, hs := ex.heapOfType(c.t)
-		ex.storeLV(st, c.lv, sel(ex.H(st, hn, hs), c.ref))
+		ex.copyOut(st, c.lv, c.ref, c.t)
 	}
 	switch len(res) {
 	case 0:
@@ -1562,4 +1566,93 @@ func cellWrittenIn(fv *ssa.FreeVar, fn *ssa.Function) bool {
 		return false
 	}
 	return rec(fv)
+}
+
+// aimObligation (C07): a method of a re-aimable store is called: its state pointer must be the deliver state.
+func (f *Frame) aimObligation(callee *ssa.Function, args []Val, in ssa.Instruction, st *PState) {
+	ex := f.ex
+	sig := callee.Signature
+	if sig.Recv() == nil || len(args) == 0 {
+		return
+	}
+	name := callee.Name()
+	if name == "WithState" || name == "WithPrefix" || name == "WithPrefixType" || name == "WithHeight" {
+		return
+	}
+	pt, ok := sig.Recv().Type().Underlying().(*types.Pointer)
+	if !ok {
+		return
+	}
+	nt, ok := types.Unalias(pt.Elem()).(*types.Named)
+	if !ok || nt.Obj().Pkg() == nil || !strings.HasPrefix(nt.Obj().Pkg().Path(), modPath) {
+		return
+	}
+	// re-aimable: has a WithState method
+	ms := ex.P.prog.MethodSets.MethodSet(sig.Recv().Type())
+	has := false
+	for i := 0; i < ms.Len(); i++ {
+		if ms.At(i).Obj().Name() == "WithState" {
+			has = true
+		}
+	}
+	if !has {
+		return
+	}
+	stt, ok := nt.Underlying().(*types.Struct)
+	if !ok {
+		return
+	}
+	fieldIdx := -1
+	for i := 0; i < stt.NumFields(); i++ {
+		if p2, ok := stt.Field(i).Type().Underlying().(*types.Pointer); ok {
+			if isNamedIn(p2.Elem(), "/storage", "State") {
+				fieldIdx = i
+				break
+			}
+		}
+	}
+	if fieldIdx < 0 {
+		return
+	}
+	recv := args[0]
+	var cur string
+	if recv.LV != nil {
+		cur = ex.loadLV(st, recv.LV)
+	} else {
+		hn, hs := ex.heapOfType(pt.Elem())
+		cur = sel(ex.H(st, hn, hs), recv.T)
+	}
+	si := ex.reg.StructInfoOf(pt.Elem())
+	aimed := app(si.Fields[fieldIdx].Acc, cur)
+	var pkg *types.Package
+	if ex.top.Pkg != nil {
+		pkg = ex.top.Pkg.Pkg
+	}
+	env := &SpecEnv{ex: ex, f: ex.topFrame, vars: map[string]Val{}, stypes: map[string]*SType{}, cur: st, old: ex.entry, pkg: pkg, expand: ex.expands, what: "aimcheck of " + ex.top.Name()}
+	for i, p := range ex.top.Params {
+		if i < len(ex.topFrame.params) {
+			env.vars[p.Name()+"0"] = ex.topFrame.params[i]
+		}
+	}
+	want := env.Eval(ex.aim.Expr)
+	tag := ex.aim.Tag
+	if tag == "" {
+		tag = "C07.aim"
+	}
+	ex.vc.AddObligation(&Obligation{
+		Name: fmt.Sprintf("%s/%s/aim[%s.%s]%s", tag, ex.oblPrefix, nt.Obj().Name(), name, f.inlineSuffix()), Tag: tag, Kind: "aim", Func: ex.top.String(),
+		Goal: implies(st.reach, eq(aimed, want.T)), Pos: f.pos(in),
+		Desc: fmt.Sprintf("store %s is aimed at the deliver state when %s is called (it may have been re-aimed at the check state by any earlier CheckTx)", nt.Obj().Name(), name),
+	})
+}
+
+// copyOut writes the copy made for an interior-pointer argument back into its place and states the
+// resulting equality (a consequence of the store) so that E-matching sees the two views as one object.
+func (ex *Exec) copyOut(st *PState, lv *LValue, ref string, t types.Type) {
+	hn, hs := ex.heapOfType(t)
+	v := sel(ex.H(st, hn, hs), ref)
+	ex.storeLV(st, lv, v)
+	if st.reach != "false" {
+		ex.vc.AssumeIf(st.reach, eq(ex.loadLV(st, lv), v))
+	}
 }
